@@ -55,6 +55,11 @@ vars == <<c, p, muts>>
 NilE == [e |-> "nil"]
 HashE(h) == [e |-> "hash", h |-> h]
 FullE(n) == [e |-> "full", n |-> n]
+(* a full internal entry in the NON-compact node encoding: the two child hashes are embedded in the entry itself.   *)
+(* node.UnmarshalBinary accepts it (and computes a hash from the embedded values); verifyProof takes the children   *)
+(* from the entries that follow and recomputes the hash, i.e. the embedding is ignored - see VerifyAt.               *)
+EmbE(n, hl, hr) == [e |-> "full", n |-> n, emb |-> <<hl, hr>>]
+HasEmb(e) == "emb" \in DOMAIN e
 PInt(lbl, leaf) == [t |-> "int", lbl |-> lbl, leaf |-> leaf]
 HashP(h) == [t |-> "hash", h |-> h]
 
@@ -359,6 +364,16 @@ Span(es, i, v) ==
     LET r == VerifyAt(es, i, 0, v) IN
     IF r.ok THEN [ok |-> TRUE, end |-> r.pos, term |-> Term(r.pt)] ELSE [ok |-> FALSE, end |-> i + 1, term |-> Nil]
 
+(* recomputed terms of the two children of the internal entry i *)
+ChildTerms(es, i, v) ==
+    LET lf == IF v = 0 THEN VOk(i + 1, Nil) ELSE VerifyAt(es, i + 1, 1, v) IN
+    IF ~lf.ok THEN [ok |-> FALSE, l |-> Nil, r |-> Nil]
+    ELSE LET l == VerifyAt(es, lf.pos, 1, v) IN
+         IF ~l.ok THEN [ok |-> FALSE, l |-> Nil, r |-> Nil]
+         ELSE LET r == VerifyAt(es, l.pos, 1, v) IN
+              IF ~r.ok THEN [ok |-> FALSE, l |-> Nil, r |-> Nil]
+              ELSE [ok |-> TRUE, l |-> Term(l.pt), r |-> Term(r.pt)]
+
 EntryLeaf(e) == IF e.e # "full" THEN Nil
                 ELSE IF e.n.t = "leaf" THEN e.n
                 ELSE e.n.leaf
@@ -382,6 +397,7 @@ Muts(pr, t, q) ==
     \cup {Mut("swap", ij[1], ij[2], <<>>, <<>>, 0) : ij \in {x \in I \X I : x[1] < x[2] /\ es[x[1]] # es[x[2]]}}
     \cup {M1("prune", i) : i \in IFull}
     \cup {M1("tohash", i) : i \in IInt}
+    \cup {Mut("embed", i, 0, <<>>, <<>>, b) : i \in {j \in IInt : ~HasEmb(es[j])}, b \in {0, 1}}   \* 0 = the true child hashes, 1 = empty hashes
     \cup {M1("nilhash", i) : i \in {i \in I : es[i].e = "nil"}}
     \cup {Mut("sethash", i, 0, <<>>, <<HashE(h)>>, 0) : i \in I, h \in OtherTrees}
     \cup {Mut("expand", i, 0, <<>>, Entries(es[i].h, AllNodes(es[i].h), pr.v), 0) :
@@ -405,6 +421,7 @@ Applicable(pr, mu) ==
       [] mu.k = "swap" -> i \in 1..N /\ mu.j \in 1..N
       [] mu.k = "prune" -> i \in 1..N /\ es[i].e = "full"
       [] mu.k = "tohash" -> i \in 1..N /\ IsIntE(es[i])
+      [] mu.k = "embed" -> i \in 1..N /\ IsIntE(es[i]) /\ ~HasEmb(es[i])
       [] mu.k = "nilhash" -> i \in 1..N /\ es[i].e = "nil"
       [] mu.k = "expand" -> i \in 1..N /\ es[i].e = "hash"
       [] mu.k \in {"chkey", "chval"} -> i \in 1..N /\ HasLeafE(es[i])
@@ -430,6 +447,9 @@ Apply(pr, mu) ==
                            IF sp.ok THEN E(Cut(es, i, sp.end, <<HashE(sp.term)>>)) ELSE pr
       [] mu.k = "tohash" -> LET sp == Span(es, i, pr.v) IN
                             IF sp.ok THEN E(Cut(es, i, i + 1, <<HashE(sp.term)>>)) ELSE pr
+      [] mu.k = "embed" -> LET ch == ChildTerms(es, i, pr.v) IN
+                           IF ~ch.ok THEN pr
+                           ELSE E([es EXCEPT ![i] = IF mu.b = 0 THEN EmbE(es[i].n, ch.l, ch.r) ELSE EmbE(es[i].n, Nil, Nil)])
       [] mu.k = "nilhash" -> E([es EXCEPT ![i] = HashE(Nil)])
       [] mu.k = "sethash" -> E([es EXCEPT ![i] = mu.es[1]])
       [] mu.k = "expand" -> E(Cut(es, i, i + 1, mu.es))
